@@ -1,3 +1,4 @@
+import S2.CellID
 /-
   S2.DecoderIR — intermediate representation of the `decode` bodies of golang/geo (s2/encode.go,
   point.go, cap.go, rect.go, cellid.go, cell.go, cellunion.go, polyline.go, loop.go, polygon.go,
@@ -25,7 +26,7 @@ namespace S2.DecoderIR
 abbrev Var := Nat
 
 /-- wire / Go scalar types.  `int` = 64-bit Go `int`; `uvarint` has range of `uint64`. -/
-inductive Ty | u8 | i8 | u32 | i32 | u64 | i64 | int | f64 | bool | uvarint
+inductive Ty | u8 | i8 | u32 | i32 | u64 | i64 | int | f64 | bool | uvarint | f64v
   deriving DecidableEq, Repr, Inhabited
 
 inductive BinOp | add | sub | mul | div | mod | band | lt | le | gt | ge | eq | ne | land | lor
@@ -37,6 +38,7 @@ inductive Expr
   | conv (t : Ty) (e : Expr)
   | bin (op : BinOp) (a b : Expr)
   | lnot (a : Expr)
+  | cellIDValid (e : Expr)   -- CellID(e).IsValid()   (the real definition, S2.CellID.isValid)
   | errNil            -- d.err == nil
   | errSet            -- d.err != nil
   deriving DecidableEq, Repr, Inhabited
@@ -75,26 +77,30 @@ def get : Env → Var → Int
   | [], _ => 0
   | (y, v) :: r, x => if x = y then v else get r x
 
-def set : Env → Var → Int → Env
-  | [], x, v => [(x, v)]
-  | (y, w) :: r, x, v => if x = y then (y, v) :: r else (y, w) :: set r x v
+/-- remove the first binding of `x`. -/
+def eraseKey : Env → Var → Env
+  | [], _ => []
+  | (y, w) :: r, x => if x = y then r else (y, w) :: eraseKey r x
 
-theorem get_set (e : Env) (x y : Var) (v : Int) :
-    get (set e x v) y = if y = x then v else get e y := by
+/-- move-to-front update: the variables of a hot loop stay at the head of the list. -/
+def set (e : Env) (x : Var) (v : Int) : Env := (x, v) :: eraseKey e x
+
+theorem get_eraseKey (e : Env) (x y : Var) (h : y ≠ x) : get (eraseKey e x) y = get e y := by
   induction e with
-  | nil => simp [set, get]
+  | nil => simp [eraseKey]
   | cons p r ih =>
     obtain ⟨z, w⟩ := p
     by_cases hxz : x = z
-    · subst hxz
-      by_cases hyx : y = x
-      · simp [set, get, hyx]
-      · simp [set, get, hyx]
+    · subst hxz; simp [eraseKey, get, h]
     · by_cases hyz : y = z
-      · subst hyz
-        have : ¬ y = x := fun h => hxz h.symm
-        simp [set, get, hxz, this]
-      · simp [set, get, hxz, hyz, ih]
+      · simp [eraseKey, get, hxz, hyz]
+      · simp [eraseKey, get, hxz, hyz, ih]
+
+theorem get_set (e : Env) (x y : Var) (v : Int) :
+    get (set e x v) y = if y = x then v else get e y := by
+  by_cases h : y = x
+  · simp [set, get, h]
+  · simp [set, get, h, get_eraseKey e x y h]
 
 /-! ## State and configuration -/
 
@@ -104,6 +110,7 @@ structure St where
   env : Env
   allocd : Nat           -- bytes allocated so far
   lost : Bool            -- some callee's error was dropped (by-value decoder)
+  nonfinite : Bool       -- some float64 read as a VERTEX COORDINATE (Ty.f64v) was NaN or ±Inf
   deriving Repr, Inhabited
 
 structure Cfg where
@@ -129,16 +136,16 @@ def wrapS (bits : Nat) (v : Int) : Int :=
   if u < (2 ^ (bits - 1) : Nat) then u else u - (2 ^ bits : Nat)
 
 def Ty.lo : Ty → Int
-  | .u8 | .u32 | .u64 | .uvarint | .bool | .f64 => 0
+  | .u8 | .u32 | .u64 | .uvarint | .bool | .f64 | .f64v => 0
   | .i8 => -128 | .i32 => -2147483648 | .i64 | .int => -9223372036854775808
 def Ty.hi : Ty → Int
-  | .u8 => 255 | .u32 => 4294967295 | .u64 | .uvarint | .f64 => 18446744073709551615
+  | .u8 => 255 | .u32 => 4294967295 | .u64 | .uvarint | .f64 | .f64v => 18446744073709551615
   | .bool => 1
   | .i8 => 127 | .i32 => 2147483647 | .i64 | .int => 9223372036854775807
 
 def conv (t : Ty) (v : Int) : Int :=
   match t with
-  | .u8 => wrapU 8 v | .u32 => wrapU 32 v | .u64 | .uvarint | .f64 => wrapU 64 v
+  | .u8 => wrapU 8 v | .u32 => wrapU 32 v | .u64 | .uvarint | .f64 | .f64v => wrapU 64 v
   | .i8 => wrapS 8 v | .i32 => wrapS 32 v | .i64 | .int => wrapS 64 v
   | .bool => if v = 0 then 0 else 1
 
@@ -159,6 +166,7 @@ def eval (err : Bool) (env : Env) : Expr → Int
   | .conv t e => conv t (eval err env e)
   | .bin op a b => evalBin op (eval err env a) (eval err env b)
   | .lnot a => b2i (eval err env a = 0)
+  | .cellIDValid e => b2i (S2.CellID.isValid (UInt64.ofNat (wrapU 64 (eval err env e)).toNat))
   | .errNil => b2i (!err)
   | .errSet => b2i err
 
@@ -171,7 +179,7 @@ def leNat : List UInt8 → Nat
 def Ty.width : Ty → Nat
   | .u8 | .i8 | .bool => 1
   | .u32 | .i32 => 4
-  | .u64 | .i64 | .int | .f64 => 8
+  | .u64 | .i64 | .int | .f64 | .f64v => 8
   | .uvarint => 0
 
 /-- binary.ReadUvarint: (value, ok, rest).  `k` = bytes still allowed (10 at the start). -/
@@ -198,11 +206,15 @@ def readRaw (t : Ty) (inp : List UInt8) : Int × Bool × List UInt8 :=
         | t => conv t v
       (v, true, inp.drop w)
 
+/-- binary64 bit pattern with all exponent bits set: NaN or ±Inf. -/
+def nonFiniteBits (v : Int) : Bool := (v.toNat / 2 ^ 52) % 2048 == 2047
+
 def doRead (t : Ty) (x : Var) (s : St) : St :=
   if s.err then { s with env := set s.env x 0 }
   else
     let (v, ok, r) := readRaw t s.inp
-    { s with inp := r, err := !ok, env := set s.env x v }
+    { s with inp := r, err := !ok, env := set s.env x v,
+             nonfinite := s.nonfinite || (t == .f64v && ok && nonFiniteBits v) }
 
 /-! ## The interpreter -/
 
@@ -279,17 +291,24 @@ inductive Result
   | hang
   deriving Repr, DecidableEq, Inhabited
 
-def St.init (input : List UInt8) : St := { inp := input, err := false, env := [], allocd := 0, lost := false }
+def St.init (input : List UInt8) : St :=
+  { inp := input, err := false, env := [], allocd := 0, lost := false, nonfinite := false }
 
 /-- `run` is a total function: every decoder IR terminates on every input, by construction of the
     interpreter (structural recursion; loops are bounded by their evaluated count / fuel). What the
     theorems add is that the outcome is never `panic`, `allocTooLarge` or `hang` for guarded programs. -/
-def run (cfg : Cfg) (p : Stmt) (input : List UInt8) : Result :=
-  match exec cfg p (St.init input) with
+def resultOf : Out → Result
   | .cont s | .retn s => if s.err then .error s.allocd else .value s.allocd s.lost
   | .panic w => .panic w
   | .allocTooLarge => .allocTooLarge
   | .hang => .hang
+
+def run (cfg : Cfg) (p : Stmt) (input : List UInt8) : Result := resultOf (exec cfg p (St.init input))
+
+/-- did the decoder read a NaN / ±Inf vertex coordinate (finding D21: such values are accepted)? -/
+def nonfiniteOf : Out → Bool
+  | .cont s | .retn s => s.nonfinite
+  | _ => false
 
 /-! ## Static analysis: intervals + strict order facts -/
 
@@ -345,7 +364,7 @@ def ivalBin (op : BinOp) (rx ry : Option (Int × Int)) : Option (Int × Int) :=
   | .lt | .le | .gt | .ge | .eq | .ne | .land | .lor => some (0, 1)
 
 def ivalConv (t : Ty) (r : Option (Int × Int)) : Option (Int × Int) :=
-  if t = .f64 then none else
+  if t = .f64 ∨ t = .f64v then none else
   match r with
   | some (lo, hi) => if t.lo ≤ lo ∧ hi ≤ t.hi ∧ t ≠ .bool then some (lo, hi) else some (t.lo, t.hi)
   | none => some (t.lo, t.hi)
@@ -357,6 +376,7 @@ def ival (a : Abs) : Expr → Option (Int × Int)
   | .conv t e => ivalConv t (ival a e)
   | .bin op x y => ivalBin op (ival a x) (ival a y)
   | .lnot _ => some (0, 1)
+  | .cellIDValid _ => some (0, 1)
   | .errNil => some (0, 1)
   | .errSet => some (0, 1)
 
@@ -384,13 +404,13 @@ def refineNot (a : Abs) : Expr → Abs
 def Expr.vars : Expr → List Var
   | .lit _ | .errNil | .errSet => []
   | .var x => [x]
-  | .conv _ e | .lnot e => e.vars
+  | .conv _ e | .lnot e | .cellIDValid e => e.vars
   | .bin _ a b => a.vars ++ b.vars
 
 /-- every division / remainder has a positive literal divisor (so `eval`'s totalisation of ÷0 is never used). -/
 def Expr.ok : Expr → Bool
   | .lit _ | .errNil | .errSet | .var _ => true
-  | .conv _ e | .lnot e => e.ok
+  | .conv _ e | .lnot e | .cellIDValid e => e.ok
   | .bin op a b =>
     a.ok && b.ok && (match op, b with
       | .div, .lit k | .mod, .lit k => decide (0 < k)
